@@ -33,6 +33,14 @@ impl<const I: usize> ::core::ops::{tr}Assign<Sc> for Ts<I> {{ fn {m}_assign(&mut
         out.append("""
 impl<const I: usize> ::core::ops::{tr} for Tg<I> {{ type Output = Tg<I>; fn {m}(self) -> Tg<I> {{ Tg(Term::Un("{m}", Box::new(self.0))) }} }}
 """.format(tr=tr, m=m))
+    # decoys: INHERENT methods named like the operator traits' methods, with the same signatures, that do something else.  `a op b`
+    # never calls them; an expansion that writes `a.add(b)` instead of `Add::add(a, b)` does (inherent methods win method resolution).
+    dec = []
+    for tr, m in BIN + MUL:
+        dec.append('pub fn {m}(self, _: Self) -> Self {{ Tg(Term::Leaf(666)) }} pub fn {m}_assign(&mut self, _: Self) {{ self.0 = Term::Leaf(667); }}'.format(m=m))
+    for tr, m in UN:
+        dec.append('pub fn {m}(self) -> Self {{ Tg(Term::Leaf(668)) }}'.format(m=m))
+    out.append("#[allow(clippy::should_implement_trait)] impl<const I: usize> Tg<I> { %s }\n" % " ".join(dec))
     return "".join(out)
 
 
